@@ -57,7 +57,24 @@ type cfs struct {
 	mu      sync.Mutex
 	handles []*cfile
 	open    atomic.Int64 // handles opened and not yet closed
+
+	// fault variants
+	nonSeekable bool   // files do not implement io.Seeker / io.ReaderAt (like archive/zip)
+	seekFailMod uint64 // > 0: Seek call number n fails iff splitmix(seekSeed^n) % seekFailMod == 0
+	seekSeed    uint64
+	seekCalls   atomic.Uint64
+	seekFaults  atomic.Int64
 }
+
+var errInjectedSeek = fmt.Errorf("c25: injected Seek failure")
+
+// cfileNoSeek exposes a handle without Seek and ReadAt.
+type cfileNoSeek struct{ c *cfile }
+
+func (f cfileNoSeek) Read(p []byte) (int, error)           { return f.c.Read(p) }
+func (f cfileNoSeek) Stat() (fs.FileInfo, error)           { return f.c.Stat() }
+func (f cfileNoSeek) Close() error                         { return f.c.Close() }
+func (f cfileNoSeek) ReadDir(n int) ([]fs.DirEntry, error) { return f.c.ReadDir(n) }
 
 type cfile struct {
 	f     fs.File
@@ -75,6 +92,8 @@ type cfile struct {
 	// unordered Closes) becomes a data-race report, even if they do not overlap in time.
 	plain int
 
+	stats atomic.Int32 // Stat calls: only the handle opened for the cache entry itself (fsFile.f) is ever Stat'ed
+
 	judged bool // set by the case's own verdict (single goroutine) when the handle was already reported
 }
 
@@ -88,6 +107,9 @@ func (c *cfs) Open(name string) (fs.File, error) {
 	c.mu.Lock()
 	c.handles = append(c.handles, h)
 	c.mu.Unlock()
+	if c.nonSeekable {
+		return cfileNoSeek{h}, nil
+	}
 	return h, nil
 }
 
@@ -118,11 +140,18 @@ func (f *cfile) Read(p []byte) (int, error) {
 func (f *cfile) Stat() (fs.FileInfo, error) {
 	f.enter("Stat")
 	defer f.leave()
+	f.stats.Add(1)
 	return f.f.Stat()
 }
 func (f *cfile) Seek(o int64, w int) (int64, error) {
 	f.enter("Seek")
 	defer f.leave()
+	if c := f.owner; c.seekFailMod > 0 {
+		if n := c.seekCalls.Add(1); splitmix(c.seekSeed^n)%c.seekFailMod == 0 {
+			c.seekFaults.Add(1)
+			return 0, errInjectedSeek // position unchanged
+		}
+	}
 	return f.f.(io.Seeker).Seek(o, w)
 }
 func (f *cfile) ReadAt(p []byte, o int64) (int, error) {
@@ -340,10 +369,16 @@ type params struct {
 	reqs      int
 	slowPct   int
 	abortPct  int
+	fault     string // "" | nonseek (files without Seek/ReadAt) | seekfail (Seek fails at generated calls)
+	repeat    int    // > 0: each client asks for the same path this many times in a row (cache hits re-use pooled readers)
 }
 
 func (p params) class() string {
-	return fmt.Sprintf("%s|skip=%v|gz=%v|stop=%s|dur=%d|cl=%d", p.inner, p.skipCache, p.compress, p.stopMode, p.cacheDur/(10*time.Millisecond), p.clients/4)
+	d := p.cacheDur / (10 * time.Millisecond)
+	if d > 5 {
+		d = 99
+	}
+	return fmt.Sprintf("%s|skip=%v|gz=%v|stop=%s|dur=%d|cl=%d|fault=%s|rep=%v", p.inner, p.skipCache, p.compress, p.stopMode, d, p.clients/4, p.fault, p.repeat > 0)
 }
 
 func genParams(rnd *rand.Rand) params {
@@ -371,6 +406,17 @@ func genParams(rnd *rand.Rand) params {
 	p.reqs = 5 + rnd.Intn(8)
 	p.slowPct = 30 + rnd.Intn(50)
 	p.abortPct = rnd.Intn(8)
+	// second generator stream decisions (kept last so that the earlier parameters of a case index do not move)
+	if p.inner != "osfs" && rnd.Intn(10) < 3 {
+		p.fault = []string{"nonseek", "seekfail"}[rnd.Intn(2)]
+		p.compress = false // the compressor's own rewinds ignore Seek errors; not this property
+	}
+	if p.fault != "" || rnd.Intn(6) == 0 {
+		p.repeat = 3 + rnd.Intn(5)
+		if rnd.Intn(3) != 0 {
+			p.cacheDur = time.Duration(2+rnd.Intn(4)) * time.Second // sequential repeats are cache hits for certain
+		}
+	}
 	return p
 }
 
@@ -386,6 +432,10 @@ type caseResult struct {
 	bodiesSlow   int
 	aborted      int
 	fdPeak       int
+	failed5xx    int
+	unsuccessful int
+	seekFaults   int
+	fault        string
 	cs           *caseState
 	wrapper      *cfs
 }
@@ -473,6 +523,15 @@ func runCase(r *mon.Run, i int, tmp string) (res caseResult) {
 	case "osfs":
 		fsys.Root = root
 	}
+	if wrapper != nil {
+		switch p.fault {
+		case "nonseek":
+			wrapper.nonSeekable = true
+		case "seekfail":
+			wrapper.seekFailMod = uint64(2 + rnd.Intn(5))
+			wrapper.seekSeed = uint64(rnd.Int63())
+		}
+	}
 	res.wrapper = wrapper
 	if p.stopMode == "end" || p.stopMode == "mid" {
 		cs.stop = make(chan struct{})
@@ -510,38 +569,60 @@ func runCase(r *mon.Run, i int, tmp string) (res caseResult) {
 		bad(key, f, a...)
 		vmu.Unlock()
 	}
-	var bodies, slowBodies, aborted atomic.Int64
+	var bodies, slowBodies, aborted, failed5xx, unsuccessful atomic.Int64
 	var fdPeak atomic.Int64
 
 	client := func(ci int, crnd *rand.Rand) {
 		defer cliWG.Done()
-		var c, s net.Conn
-		if crnd.Intn(10) < 7 {
-			c, s = net.Pipe() // unbuffered: the server's writes advance only as fast as the client reads
-		} else {
-			pc := fasthttputil.NewPipeConns()
-			c, s = pc.Conn1(), pc.Conn2()
-		}
-		srvWG.Add(1)
-		go func() {
-			defer srvWG.Done()
-			gid := curGoid()
-			byGoid.Store(gid, cs)
-			cs.ownGoids.Store(gid, true)
-			defer func() {
-				if pv := recover(); pv != nil {
-					cbad("panic", "panic in ServeConn: %v\n%s", pv, debug.Stack())
-					s.Close()
-				}
+		var c net.Conn
+		var br *bufio.Reader
+		dial := func() {
+			var s net.Conn
+			if crnd.Intn(10) < 7 {
+				c, s = net.Pipe() // unbuffered: the server's writes advance only as fast as the client reads
+			} else {
+				pc := fasthttputil.NewPipeConns()
+				c, s = pc.Conn1(), pc.Conn2()
+			}
+			br = bufio.NewReaderSize(c, 1024)
+			srvWG.Add(1)
+			go func() {
+				defer srvWG.Done()
+				gid := curGoid()
+				byGoid.Store(gid, cs)
+				cs.ownGoids.Store(gid, true)
+				defer func() {
+					if pv := recover(); pv != nil {
+						cbad("panic", "panic in ServeConn: %v\n%s", pv, debug.Stack())
+						s.Close()
+					}
+				}()
+				srv.ServeConn(s)
 			}()
-			srv.ServeConn(s)
-		}()
-		defer c.Close()
-		br := bufio.NewReaderSize(c, 1024)
+		}
+		dial()
+		defer func() { c.Close() }()
+		// connFailed: the exchange did not succeed (connection closed, truncated response). Under a fault variant the
+		// server legitimately gives up on a connection whose body stream failed to close; the client reconnects.
+		// Otherwise it is reported. Returns true when the client may go on.
+		connFailed := func(key, f string, a ...any) bool {
+			if p.fault == "" {
+				cbad(key, f, a...)
+				return false
+			}
+			unsuccessful.Add(1)
+			c.Close()
+			cs.requestDone()
+			dial()
+			return true
+		}
 		slowClient := crnd.Intn(100) < p.slowPct
 		paths := []string{"/a.txt", "/mid.txt", "/big.txt", "/big.txt", "/d/c.html", "/d/", "/nope.txt", "/big.txt"}
+		path := ""
 		for k := 0; k < p.reqs; k++ {
-			path := paths[crnd.Intn(len(paths))]
+			if path == "" || p.repeat == 0 || k%p.repeat == 0 {
+				path = paths[crnd.Intn(len(paths))]
+			}
 			method := "GET"
 			if crnd.Intn(10) == 0 {
 				method = "HEAD"
@@ -566,17 +647,22 @@ func runCase(r *mon.Run, i int, tmp string) (res caseResult) {
 				hdr += "If-Modified-Since: " + mtime.Add(-time.Hour).Format(http.TimeFormat) + "\r\n"
 			}
 			if _, err := fmt.Fprintf(c, "%s %s HTTP/1.1\r\nHost: c25\r\n%s\r\n", method, path, hdr); err != nil {
-				cbad("connection-lost", "client %d: write request: %v", ci, err)
+				if connFailed("connection-lost", "client %d: write request: %v", ci, err) {
+					continue
+				}
 				return
 			}
 			resp, err := http.ReadResponse(br, &http.Request{Method: method})
 			if err != nil {
-				cbad("response-unreadable", "client %d: %s %s [%s]: %v", ci, method, path, strings.TrimSpace(hdr), err)
+				if connFailed("response-unreadable", "client %d: %s %s [%s]: %v", ci, method, path, strings.TrimSpace(hdr), err) {
+					continue
+				}
 				return
 			}
 			abort := method == "GET" && resp.StatusCode/100 == 2 && crnd.Intn(100) < p.abortPct
 			ticks0 := cs.cleanerTicks.Load()
 			var body []byte
+			var bodyErr error
 			if slowClient && resp.ContentLength > 4096 && crnd.Intn(100) < 45 {
 				// 3-10 reads with 1-6 ms pauses: the reader is held for 3-60 ms, i.e. across cleaner ticks and expiry
 				chunk := int(resp.ContentLength)/(3+crnd.Intn(8)) + 1
@@ -586,8 +672,7 @@ func runCase(r *mon.Run, i int, tmp string) (res caseResult) {
 					body = append(body, buf[:n]...)
 					if err != nil {
 						if err != io.EOF && err != io.ErrUnexpectedEOF {
-							cbad("response-unreadable", "client %d: %s %s: body: %v", ci, method, path, err)
-							return
+							bodyErr = err
 						}
 						break
 					}
@@ -607,13 +692,19 @@ func runCase(r *mon.Run, i int, tmp string) (res caseResult) {
 					cs.requestDone()
 					return
 				}
-				body, err = io.ReadAll(resp.Body)
-				if err != nil {
-					cbad("response-unreadable", "client %d: %s %s: body: %v", ci, method, path, err)
-					return
-				}
+				body, bodyErr = io.ReadAll(resp.Body)
 			}
 			resp.Body.Close()
+			if bodyErr == nil && method != "HEAD" && resp.ContentLength >= 0 && int64(len(body)) != resp.ContentLength {
+				bodyErr = io.ErrUnexpectedEOF
+			}
+			if bodyErr != nil {
+				// the response did not arrive completely
+				if connFailed("body-shorter-than-content-length", "client %d: %s %s [%s]: status %d, %d of %d body bytes: %v", ci, method, path, strings.TrimSpace(hdr), resp.StatusCode, len(body), resp.ContentLength, bodyErr) {
+					continue
+				}
+				return
+			}
 			if cs.cleanerTicks.Load() > ticks0 && len(body) > 0 {
 				cs.heldAcrossTick.Add(1)
 			}
@@ -649,6 +740,12 @@ func runCase(r *mon.Run, i int, tmp string) (res caseResult) {
 					cbad("body-mismatch", "client %d: GET %s Range %d-%d: 206 body of %d bytes differs from the slice", ci, path, rs, re, len(body))
 				}
 			case 304:
+			case 500:
+				// a file that cannot seek cannot serve a range / an injected Seek failure: the response did not succeed, nothing to compare
+				if p.fault == "" {
+					cbad("unexpected-status", "client %d: GET %s [%s]: status 500", ci, path, strings.TrimSpace(hdr))
+				}
+				failed5xx.Add(1)
 			default:
 				cbad("unexpected-status", "client %d: GET %s [%s]: status %d", ci, path, strings.TrimSpace(hdr), resp.StatusCode)
 			}
@@ -670,6 +767,10 @@ func runCase(r *mon.Run, i int, tmp string) (res caseResult) {
 		return res
 	}
 	res.bodies, res.bodiesSlow, res.aborted, res.fdPeak = int(bodies.Load()), int(slowBodies.Load()), int(aborted.Load()), int(fdPeak.Load())
+	res.failed5xx, res.fault, res.unsuccessful = int(failed5xx.Load()), p.fault, int(unsuccessful.Load())
+	if wrapper != nil {
+		res.seekFaults = int(wrapper.seekFaults.Load())
+	}
 
 	tServed := time.Since(t0)
 	defer func() {
@@ -719,7 +820,19 @@ func runCase(r *mon.Run, i int, tmp string) (res caseResult) {
 								names[hd.name]++
 							}
 						}
-						bad("handle-never-closed", "case %d (%+v): %d of %d handles are still open after every response was released, the cache manager was closed and its cleaner goroutine has exited: %v", i, p, n, len(wrapper.snapshot()), names)
+						key := "handle-never-closed"
+						onlyEntryHandles := true
+						for _, hd := range wrapper.snapshot() {
+							if hd.closes.Load() == 0 && hd.stats.Load() == 0 {
+								onlyEntryHandles = false
+							}
+						}
+						if p.fault == "nonseek" && onlyEntryHandles {
+							// every reader handle was closed; what stays open are the cache entries' own handles (fsFile.f):
+							// their readers count never came back to zero
+							key = "nonseekable-file-readers-count-leak"
+						}
+						bad(key, "case %d (%+v): %d of %d handles are still open after every response was released, the cache manager was closed and its cleaner goroutine has exited: %v", i, p, n, len(wrapper.snapshot()), names)
 					} else {
 						_, names := fdsUnder(root)
 						bad("fd-never-closed", "case %d (%+v): %d descriptors below the served root are still open after every response was released and the cleaner goroutine has exited: %v", i, p, n, names)
@@ -761,7 +874,7 @@ func runCase(r *mon.Run, i int, tmp string) (res caseResult) {
 func TestC25(t *testing.T) {
 	r := mon.Start(t, "C25")
 	defer r.Finish()
-	r.Rule("case = one FS handler (counting fs.FS over fstest.MapFS or os.DirFS, or the plain os root with /proc/self/fd counting; CacheDuration 10-40 ms; SkipCache, Compress on/off) served by Server.ServeConn to 3-8 concurrent clients x 5-12 requests over net.Pipe / fasthttputil pipes for 4 files, a directory index and a missing path (GET/HEAD, Range, gzip, If-Modified-Since); 30-80% of the clients read some bodies in 3-10 chunks with 1-6 ms pauses (holding a reader across cleaner ticks), some abort mid-body; CleanStop is closed after a generated number of completed requests (mid traffic), at the end, or never (handler dropped, runtime cleanup closes the manager); a seeded hook yields/sleeps at fs.cache.got / fs.cache.set / fs.dec.unlocked and always delays fs.clean.collected. distinct = set of (inner fs, skip, compress, stop mode, duration bucket, client bucket); non-trivial = the cleaner ran at least once during the case (or SkipCache)")
+	r.Rule("case = one FS handler (counting fs.FS over fstest.MapFS or os.DirFS, or the plain os root with /proc/self/fd counting; CacheDuration 10-40 ms; SkipCache, Compress on/off) served by Server.ServeConn to 3-8 concurrent clients x 5-12 requests over net.Pipe / fasthttputil pipes for 4 files, a directory index and a missing path (GET/HEAD, Range, gzip, If-Modified-Since); 30-80% of the clients read some bodies in 3-10 chunks with 1-6 ms pauses (holding a reader across cleaner ticks), some abort mid-body; 30% of the wrapped cases use fault variants: files without Seek/ReadAt (like archive/zip), or Seek failing at generated call numbers (the rewind in bigFileReader.Close, the range seek), with each client asking for the same path 3-7 times in a row and, mostly, a cache duration of seconds so that the repeats are cache hits that re-use pooled readers; there a 500, a truncated response or a connection the server closes counts as an unsuccessful exchange (the client reconnects) and only complete bodies are compared; CleanStop is closed after a generated number of completed requests (mid traffic), at the end, or never (handler dropped, runtime cleanup closes the manager); a seeded hook yields/sleeps at fs.cache.got / fs.cache.set / fs.dec.unlocked and always delays fs.clean.collected. distinct = set of (inner fs, skip, compress, stop mode, duration bucket, client bucket, fault variant, repeats); non-trivial = the cleaner ran at least once during the case (or SkipCache)")
 	r.Assume("all interleavings is replaced by the interleavings actually produced (signatures counted in the evidence); a handle is judged never closed only after every ServeConn returned, the cache manager was closed and a goroutine dump shows neither the case's cleaner goroutine nor any Release/Close in progress; otherwise the case is inconclusive")
 	r.Assume("closing CleanStop while requests are in flight is exercised although the field comment discourages it: the property statement quantifies over it")
 	tmp := filepath.Join(os.TempDir(), fmt.Sprintf("c25-%d", os.Getpid()))
@@ -790,6 +903,12 @@ func TestC25(t *testing.T) {
 		}
 		cs := res.cs
 		r.Event("handles_opened", res.handles)
+		r.Event("responses_5xx_under_fault", res.failed5xx)
+		r.Event("seek_faults_injected", res.seekFaults)
+		r.Event("exchanges_unsuccessful_under_fault(connection closed or truncated; client reconnected)", res.unsuccessful)
+		if res.fault != "" {
+			r.Event("cases_fault_"+res.fault, 1)
+		}
 		r.Event("bodies_checked", res.bodies)
 		r.Event("bodies_read_slowly", res.bodiesSlow)
 		r.Event("clients_aborted_mid_body", res.aborted)
@@ -852,5 +971,8 @@ func TestC25(t *testing.T) {
 		r.Require("reach_fs.clean.collected", n/2)
 		r.Require("reach_fs.dec.unlocked", n)
 		r.Require("bodies_held_across_cleaner_tick", n/4)
+		r.Require("cases_fault_nonseek", n/20)
+		r.Require("cases_fault_seekfail", n/20)
+		r.Require("seek_faults_injected", n)
 	}
 }
